@@ -96,7 +96,19 @@ def fidelity_case(draw):
     # optionally an earlier call of the same estimator with non-default (looser) optional solver settings
     prior = draw(st.sampled_from([None, None, None, {"atol": 0.25, "max_iter": 5}, {"max_iter": 2}, {"atol": 0.1},
                                   {"max_line_search_depth": 1, "rcond": 1e-2}]))
-    return {"N": N, **draw(resolved_moments(N)), "prior_solver_config": prior}
+    # optionally the quadruple is one cell of a (points x frequencies) batch whose other cells hold the same sea
+    # turned by whole bins; the arrays are C ordered, Fortran ordered or transposed views (frequency-first storage)
+    batch = None
+    if draw(st.integers(0, 3)) == 0:
+        p_, q_ = draw(st.integers(1, 3)), draw(st.integers(2, 3))
+        batch = {"shape": [p_, q_], "pos": [draw(st.integers(0, p_ - 1)), draw(st.integers(0, q_ - 1))],
+                 "order": draw(st.sampled_from(["C", "F", "T"]))}
+    return {"N": N, **draw(resolved_moments(N)), "prior_solver_config": prior, "batch": batch}
+
+
+def turned(m, phi):
+    c1, s1, c2, s2 = math.cos(phi), math.sin(phi), math.cos(2 * phi), math.sin(2 * phi)
+    return np.array([m[0] * c1 - m[1] * s1, m[0] * s1 + m[1] * c1, m[2] * c2 - m[3] * s2, m[2] * s2 + m[3] * c2])
 
 
 def run_fidelity(c):
@@ -111,9 +123,41 @@ def run_fidelity(c):
         # documented tolerance (the estimators are functions of their arguments, not of the call history)
         Dp = np.asarray(est(*a, d, method="mem2", solution_method="newton", solver_config=dict(c["prior_solver_config"])))[0]
         require(Dp.shape == (N,) and np.isfinite(Dp).all(), "call_with_solver_config_returns_distribution", f"{Dp.shape}")
+    bt = c.get("batch")
+    b = bt
+    cells = None
+    if b:
+        p_, q_ = b["shape"]
+        cells = np.empty((p_, q_, 4))
+        for i in range(p_):
+            for j in range(q_):
+                shift = 0 if [i, j] == b["pos"] else (1 + i * q_ + j)
+                cells[i, j] = turned(m, shift * math.radians(step))
+        if b["order"] == "F":
+            a = [np.asfortranarray(cells[..., k]) for k in range(4)]
+        elif b["order"] == "T":
+            a = [np.ascontiguousarray(cells[..., k].T).T for k in range(4)]      # transposed view of frequency-first data
+        else:
+            a = [np.ascontiguousarray(cells[..., k]) for k in range(4)]
     for name, kw in (("mem", dict(method="mem")), ("newton", dict(method="mem2", solution_method="newton")),
                      ("scipy", dict(method="mem2", solution_method="scipy"))):
-        D = np.asarray(est(*a, d, **kw))[0]
+        Dall = np.asarray(est(*a, d, **kw))
+        if b:
+            require(Dall.shape == (p_, q_, N), "output_shape", f"{name}: {Dall.shape}")
+            # every cell of the batch holds the estimate for ITS moments
+            for i in range(p_):
+                for j in range(q_):
+                    mc = moments_of(Dall[i, j], th, step)
+                    if name == "mem":
+                        refc = mem_reference(cells[i, j], th) * math.pi / 180
+                        require(np.abs(Dall[i, j] - refc).max() <= 1e-9 * refc.max(), "batch_cell_mem_equals_closed_form_of_its_moments",
+                                f"N={N} cell=({i},{j}) of {b['shape']} order={b['order']}")
+                    elif name == "newton":
+                        require(float(np.linalg.norm(mc - cells[i, j])) <= 0.0101, "batch_cell_mem2_reproduces_its_moments",
+                                f"N={N} cell=({i},{j}) of {b['shape']} order={b['order']} recomputed={mc.tolist()} moments={cells[i, j].tolist()}")
+            D = Dall[b["pos"][0], b["pos"][1]]
+        else:
+            D = Dall[0]
         out[name] = (D, moments_of(D, th, step))
     for name in ("newton", "scipy"):
         err = float(np.linalg.norm(out[name][1] - m))
@@ -136,6 +180,8 @@ def run_fidelity(c):
         classes.append("mem_bound_asserted")
     if c.get("prior_solver_config"):
         classes.append("after_a_call_with_optional_solver_settings")
+    if bt:
+        classes.append("cell_of_a_batch_order_" + bt["order"])
     R = math.hypot(m[0], m[1])
     return {"nontrivial": R > 0.05, "classes": classes}
 
